@@ -88,6 +88,37 @@ RotDoc(d) == [d EXCEPT !.node_vertices = SelectSeq(@, IsHNode) \o SelectSeq(@, L
 DecodeOrder == Done => /\ LET r == Decode(RevDoc(doc)) IN ~r.panic /\ IsoAnchoredC(r.g, r.cg, g, crd) /\ r.g.sc = dec.g.sc
                        /\ LET r == Decode(RotDoc(doc)) IN ~r.panic /\ IsoAnchoredC(r.g, r.cg, g, crd) /\ r.g.sc = dec.g.sc
 
+\* ----- documents in the shapes of other writers (config MC_JsonG_f; audit #24) -----
+\* What Trace_JsonG demands of `foreign` events holds of the TRANSCRIBED decoder for every diagram of the family:
+\*   ForeignTypedH    the document with every virtual node replaced by ONE hadamard-typed edge decodes to g
+\*   ForeignParallel  the document plus one more edge (plain or hadamard-typed, met first or last) between any two Z/X
+\*                    spiders decodes to a diagram that denotes what the multigraph denotes (WithParallel: the extra
+\*                    edge through a phase-free Z spider), scalar included (no scalar field: g.sc = 1)
+NameOf(v) == LET V == SetToSortSeq(g.vs, <)
+             IN IF g.ty[v] = "B" THEN "b" \o ToString(PosIn(SelectSeq(V, LAMBDA x : g.ty[x] = "B"), v))
+                ELSE "v" \o ToString(PosIn(SelectSeq(V, LAMBDA x : g.ty[x] # "B"), v))
+TypedDoc(d) ==
+  LET N == d.node_vertices
+      E == d.undir_edges
+      hs == SelectSeq(N, IsHNode)
+      hn == {hs[i].name : i \in 1..Len(hs)}
+      ends(h) == LET inc == SelectSeq(E, LAMBDA e : e.src = h \/ e.tgt = h)
+                 IN [k \in 1..Len(inc) |-> IF inc[k].src = h THEN inc[k].tgt ELSE inc[k].src]
+  IN [d EXCEPT !.node_vertices = SelectSeq(N, LAMBDA n : ~IsHNode(n)),
+               !.undir_edges = SelectSeq(E, LAMBDA e : e.src \notin hn /\ e.tgt \notin hn)
+                               \o [i \in 1..Len(hs) |-> [src |-> ends(hs[i].name)[1], tgt |-> ends(hs[i].name)[2], type |-> "hadamard"]]]
+ForeignTypedH == Done => LET r == Decode(TypedDoc(doc))
+                         IN ~r.panic /\ ~r.unsupported /\ IsoAnchoredC(r.g, r.cg, g, crd) /\ r.g.sc = dec.g.sc
+ZXPairs == {p \in Spiders(g) \X Spiders(g) : p[1] < p[2] /\ g.ty[p[1]] \in {"Z", "X"} /\ g.ty[p[2]] \in {"Z", "X"}}
+ForeignParallel ==
+  Done /\ g.sc = ROne => \A p \in ZXPairs : \A t \in {"N", "H"} : \A typed \in BOOLEAN :
+    LET base == IF typed THEN TypedDoc(doc) ELSE doc
+        extra == [src |-> NameOf(p[1]), tgt |-> NameOf(p[2]), type |-> IF t = "H" THEN "hadamard" ELSE "simple"]
+        r1 == Decode([base EXCEPT !.undir_edges = <<extra>> \o @])
+        r2 == Decode([base EXCEPT !.undir_edges = Append(@, extra)])
+        want == Den(WithParallel(g, <<<<p[1], p[2], t>>>>))
+    IN ~r1.panic /\ ~r2.panic /\ Den(r1.g) = want /\ Den(r2.g) = want
+
 \* ----- the isomorphism test itself -----
 FirstSpider == Min(Spiders(g))
 PhaseBump == [g EXCEPT !.ph[FirstSpider] = (@ + 1) % 8]
